@@ -230,7 +230,8 @@ class RealSession:
         if not ra.get("active"):
             return ["inactive"]
         sc = ra.get("scope", "")
-        return ["active", sc.split(" ") if sc else [], ra.get("client_id"), ra.get("sub"), ra.get("token_class", ra.get("token_type"))]
+        cls = self.tokobj[ref[1]].token_class if ref[0] == "tok" and ref[1] < len(self.tokobj) else None
+        return ["active", sc.split(" ") if sc else [], ra.get("client_id"), ra.get("sub"), cls]
 
     def op_revoke_ep(self, client, ref):
         ep = self.ep["token_revocation"]
